@@ -496,6 +496,18 @@ func (sp *subProcess) startAll(ctx context.Context) error {
 	return nil
 }
 
+// ownStartEvent tells whether the start event is one of this sub-process's own: the
+// traces of the sub-processes inside it arrive on the same tracer, and their
+// start events are not start events of this scope.
+func (sp *subProcess) ownStartEvent(startEvent *schema.StartEvent) bool {
+	for i := range *sp.element.StartEvents() {
+		if &(*sp.element.StartEvents())[i] == startEvent {
+			return true
+		}
+	}
+	return false
+}
+
 func (sp *subProcess) ceaseFlowMonitor(tracer tracing.ITracer) func(ctx context.Context, sender tracing.ISenderHandle) {
 	// Subscribing to traces early as otherwise events produced
 	// after the goroutine below is started are not going to be
@@ -520,12 +532,16 @@ func (sp *subProcess) ceaseFlowMonitor(tracer tracing.ITracer) func(ctx context.
 				case TerminationTrace:
 					switch flowNode := t.Source.(type) {
 					case *schema.StartEvent:
-						startEventsActivated = append(startEventsActivated, flowNode)
+						if sp.ownStartEvent(flowNode) {
+							startEventsActivated = append(startEventsActivated, flowNode)
+						}
 					}
 				case FlowTrace:
 					switch flowNode := t.Source.(type) {
 					case *schema.StartEvent:
-						startEventsActivated = append(startEventsActivated, flowNode)
+						if sp.ownStartEvent(flowNode) {
+							startEventsActivated = append(startEventsActivated, flowNode)
+						}
 					}
 				}
 			case <-ctx.Done():
